@@ -128,3 +128,67 @@ void h_skip_array(void) {
   for (unsigned c = 0; c < MAXC; c++) if (c < g_calls) VASSERT(g_kind[c] == 1, "skipArray only skips");
   if (r == OK && nc == 2) VWITNESS("two-elements"); if (r == INVALID) VWITNESS("invalid"); if (r == INCOMPLETE) VWITNESS("incomplete");
 }
+
+/* ================= objects: '{' (key ':' value (',' key ':' value)*)? '}'  with blanks allowed around every token.
+ * parseKey / skipKey are cut as well (they are decided on their own): the key stub consumes bytes like a child does. */
+#ifdef CUT_SKEY
+static unsigned g_keyc, g_kk[MAXC + 1], g_kmode[MAXC + 1], g_kcode[MAXC + 1], g_kpos[MAXC + 1], g_kla[MAXC + 1];
+static uint32_t keystub(struct S_AJ__detail__JsonDeserializer* d) {
+  unsigned c = g_keyc < MAXC ? g_keyc : MAXC; g_keyc++;
+  g_kpos[c] = w_jd_pos(d, g_in); g_kla[c] = w_jd_latched(d);
+  unsigned rem = w_jd_remaining(d); unsigned k = vin_u8(), mode = vin_u8(), code = vin_u8();
+  VASSUME(k <= rem && mode <= 2 && code <= 4 && code != EMPTY); VASSUME(mode != 1 || k >= 1);
+  w_jd_child_effect(d, k, mode);
+  g_kk[c] = k; g_kmode[c] = mode; g_kcode[c] = code;
+  return code;
+}
+uint32_t CUT_SKEY(struct S_AJ__detail__JsonDeserializer* d) { return keystub(d); }
+static void after_key(struct RS* s, unsigned c) {
+  s->pos += g_kk[c];
+  if (g_kmode[c] == 2) { s->pos = g_n; s->la = 1; s->ended = 1; } else if (g_kmode[c] == 1) { s->la = 1; if (g_in[s->pos - 1] == 0) s->ended = 1; } else s->la = 0;
+}
+static int ref_object(uint8_t L, unsigned* ncalls, unsigned* nkeys, unsigned* consumed) {
+  struct RS s = {1, 1, 0}; *ncalls = 0; *nkeys = 0; int e;
+  if (L == 0) { *consumed = 1; return TOODEEP; }
+  drop(&s);
+  e = skip_blanks(&s); if (e) { *consumed = s.pos; return e; }
+  if (peek(&s) == '}') { drop(&s); *consumed = s.pos; return OK; }
+  for (unsigned c = 0; c < MAXC; c++) {
+    *nkeys = c + 1;
+    VASSERT(g_kpos[c] == s.pos && g_kla[c] == s.la, "the key scanner is started exactly where the object scanner stands");
+    after_key(&s, c);
+    if (g_kcode[c] != OK) { *consumed = s.pos; return (int)g_kcode[c]; }
+    e = skip_blanks(&s); if (e) { *consumed = s.pos; return e; }
+    if (peek(&s) != ':') { *consumed = s.pos; return INVALID; }
+    drop(&s);
+    *ncalls = c + 1;
+    VASSERT(g_pos_before[c] == s.pos && g_latched_before[c] == s.la, "the value is started right after the colon");
+    after_child(&s, c);
+    if (g_code[c] != OK) { *consumed = s.pos; return (int)g_code[c]; }
+    e = skip_blanks(&s); if (e) { *consumed = s.pos; return e; }
+    uint8_t ch = peek(&s);
+    if (ch == '}') { drop(&s); *consumed = s.pos; return OK; }
+    if (ch != ',') { *consumed = s.pos; return INVALID; }
+    drop(&s);
+    e = skip_blanks(&s); if (e) { *consumed = s.pos; return e; }
+  }
+  *consumed = s.pos; return -1;
+}
+void h_skip_object(void) {
+  uint8_t in[TOT]; in[0] = '{'; for (unsigned i = 1; i < TOT; i++) in[i] = vin_u8();
+  uint8_t L = vin_u8(); g_in = in; g_n = TOT;
+  struct Out o = {0};
+  w_skip_object(in, TOT, L, &o);
+  VOBS(o.code); VOBS(o.consumed); VOBS(g_calls); VOBS(g_keyc);
+  unsigned nc, nk, cons; int r = ref_object(L, &nc, &nk, &cons);
+  if (r < 0) { VASSUME(0); }
+  VASSERT(o.code <= 5 && (int)o.code == r, "code equals the reference object recogniser (a colon after every key, ',' or '}' after every value)");
+  VASSERT(g_calls == nc && g_keyc == nk, "keys and values are scanned exactly when the grammar asks for them");
+  VASSERT(o.consumed == cons && o.consumed <= g_n, "bytes consumed equal the reference; never beyond the input");
+  if (r == OK) VASSERT(o.latched == 0, "closing brace consumed without look-ahead");
+  for (unsigned c = 0; c < MAXC; c++) if (c < g_calls) { VASSERT(g_limit_seen[c] == (uint8_t)(L - 1), "every value receives the nesting limit minus one"); VASSERT(g_kind[c] == 1, "skipObject only skips"); }
+  if (L == 0) { VASSERT(o.code == TOODEEP && g_calls == 0 && g_keyc == 0, "limit 0: TooDeep first"); VWITNESS("toodeep"); }
+  if (o.code == TOODEEP && L != 0) VASSERT(g_calls >= 1 && g_code[g_calls - 1 < MAXC ? g_calls - 1 : MAXC] == TOODEEP, "TooDeep otherwise only propagated from a value");
+  if (r == OK && nc == 1) VWITNESS("one-member"); if (r == OK && nc == 0) VWITNESS("empty"); if (r == INVALID) VWITNESS("invalid");
+}
+#endif
